@@ -826,11 +826,17 @@ static void run_actions(const char *where, void (*dflt)(void *), void *arg)
 	struct act menu[128];
 	int n, k, c;
 	for (k = 0; k < acts_per_cb; k++) {
+		int also = (k > 0 && dflt != NULL);     /* an extra step first, then the handler's usual work after all */
 		n = build_menu(menu, 128, 0);
-		c = mc_choose(1 + n, MC_ACTION, where);
+		c = mc_choose(1 + n + also, MC_ACTION, where);
 		if (c == 0) {
 			if (k == 0 && dflt)
 				dflt(arg);
+			return;
+		}
+		if (c == 1 + n) {
+			mc_obs("then-usual");
+			dflt(arg);
 			return;
 		}
 		perform(&menu[c - 1]);
@@ -850,6 +856,8 @@ static void fd_default(void *_x)
 {
 	struct fdcb *x = _x;
 	struct fdslot *f = x->f;
+	if (!f->reg)
+		return;         /* an earlier step of this handler unregistered the descriptor */
 	if (script_iter && !script_done && iter >= script_iter) {
 		/* scripted application step of this seed (cost 0); skipped when a deviation has made it invalid meanwhile
 		 * (e.g. the timer it would unregister is gone already) */
